@@ -70,8 +70,8 @@ let () =
       try
         match split_ws line with
         | ["L"; lim; h] ->
-          print_endline ("OK " ^ hx (bytes_of (remove_long_lines (n_of_string lim) (lines_of (zlist_of_hex (undash h))))))
-        | ["U"; h] -> print_endline ("OK " ^ hx (bytes_of (remove_invalid_utf8 (lines_of_utf8_tool (zlist_of_hex (undash h))))))
+          print_endline ("OK " ^ hx (bytes_of (remove_long_lines_loop (n_of_string lim) (lines_of (zlist_of_hex (undash h))))))
+        | ["U"; h] -> print_endline ("OK " ^ hx (bytes_of (remove_invalid_utf8_loop (lines_of_utf8_tool (zlist_of_hex (undash h))))))
         | ["B"; h] ->
           (match remove_invalid_utf8_base64 (lines_of (zlist_of_hex (undash h))) with
            | Some out -> print_endline ("OK " ^ hx (bytes_of out))
@@ -129,13 +129,13 @@ let () =
           let cs = parse_codes codes in
           let o = { (sc_opts mc run sample) with sc_nscripts = nat_of_int (List.length cs) } in
           let d = match zlist_of_hex dh with [x] -> x | _ -> z_of_int 9 in
-          let out = simple_cleaning script_of is_punct is_uspace (n_of_int !common) (n_of_int !inherited)
+          let out = simple_cleaning_loop script_of is_punct is_uspace (n_of_int !common) (n_of_int !inherited)
               (too_common (f32 (float_of_string mci))) (little_punct (f32 (float_of_string mp))) (script_low cs (f32 (float_of_string ms)))
               o (parse_ranges ranges) d (lines_of_parallel (zlist_of_hex (undash h))) in
           print_endline ("OK " ^ hx (bytes_of out))
         | ["T"; mc; run; sample; mci; mp; ranges; dh; h] ->
           let d = match zlist_of_hex dh with [x] -> x | _ -> z_of_int 9 in
-          let out = simple_cleaning script_of is_punct is_uspace (n_of_int !common) (n_of_int !inherited)
+          let out = simple_cleaning_loop script_of is_punct is_uspace (n_of_int !common) (n_of_int !inherited)
               (too_common (f32 (float_of_string mci))) (little_punct (f32 (float_of_string mp))) script_low_none
               (sc_opts mc run sample) (parse_ranges ranges) d (lines_of_parallel (zlist_of_hex (undash h))) in
           print_endline ("OK " ^ hx (bytes_of out))
